@@ -265,7 +265,35 @@ fn check(ctx: &Ctx, c: &Case, counting: bool) -> Result<(), Fail> {
 	}
 	let detail = json!({"start_len": c.start.len(), "end": c.end.as_ref().map(|e| rt::hex(e)), "reject_reason": want_start.as_ref().err().cloned().or_else(|| want_end.as_ref().and_then(|e| e.as_ref().err().cloned()))});
 	let fail = |sig: &str, msg: String| Fail::new(format!("op=startend {}", sig), msg).with_file("slp", &bytes).with_detail(detail.clone());
-	let g = match rt::slp_read_default(&bytes) {
+	// Game Start / Game End reach the caller through several entry points: all must give the same blocks
+	// (skip-frames needs a finished replay: it seeks to the Game End)
+	let variant = match (rt::hash_bytes(&bytes) >> 20) % 6 {
+		2 | 3 if c.end.is_none() => 0,
+		4 if c.end.is_none() => 5,
+		v => v,
+	};
+	if counting {
+		ctx.class(["read:default", "read:default", "read:skip_frames", "read:skip_frames+hash", "read:embedded+skip_frames", "read:embedded"][variant as usize]);
+	}
+	let read = match variant {
+		0 | 1 => rt::slp_read_default(&bytes),
+		2 => rt::slp_read(&bytes, true, false),
+		3 => rt::slp_read(&bytes, true, true),
+		_ => {
+			// the replay as the second member of a longer stream, reader positioned at its first byte
+			let mut sib = m.clone();
+			sib.end = match &m.end {
+				EndSpec::One(b) => EndSpec::One(b.iter().map(|x| x ^ 0x2a).collect()),
+				other => other.clone(),
+			};
+			let mut stream = if bytes.len() % 2 == 0 { sib.encode() } else { vec![0x7b; 1 + bytes.len() % 97] };
+			let at = stream.len();
+			stream.extend_from_slice(&bytes);
+			let o = rt::slp_opts(variant == 4, false);
+			rt::slp_read_embedded(&stream, at, Some(&o)).0
+		}
+	};
+	let g = match read {
 		Out::Ok(g) => {
 			if must_reject {
 				return Err(fail("accepted_illegal", format!("block with an illegal value was accepted: {:?}", detail["reject_reason"])));
